@@ -271,6 +271,70 @@ def run_case(r, obs):
         if n >= 1:
             compare("source-split-tail", lambda: (lambda e: lena.core.Source(
                 flow(), e[0], lena.core.Sequence(*e[1:]))())(fresh()))
+        # the same Source object generates the flow again on every call
+        def ref_twice():
+            vals, els = flow(), fresh()
+            res = []
+            for _ in range(2):
+                f = iter(vals)
+                for el in els:
+                    f = T(el, f)
+                res.append(gen.freeze(list(f)))
+            return res
+
+        def src_twice(first_kind):
+            vals, els = flow(), fresh()
+            first = vals if first_kind == "list" else (lambda: iter(vals))
+            src = lena.core.Source(first, *els)
+            return [gen.freeze(list(src())), gen.freeze(list(src()))]
+        exp2 = outcome(ref_twice)
+        for fk in ("list", "callable"):
+            got2 = outcome(lambda: src_twice(fk))
+            obs.count("arrangements")
+            obs.check(got2 == exp2, "source-called-twice-differs:" + fk,
+                      "Source(%s, e1..en) called twice gives %r, manual fold applied twice to the "
+                      "same elements gives %r (els=%r flow=%r)" % (fk, got2, exp2, els_r, flow_r))
+        if not any(e[0] in ("sum", "dsum", "mean", "store", "fccount") for e in els_r) \
+                and "'sum'" not in repr(els_r) and "'store'" not in repr(els_r) \
+                and "'mean'" not in repr(els_r) and "'dsum'" not in repr(els_r) \
+                and "'fccount'" not in repr(els_r):
+            # two live flows of one Source consumed interleaved (lazy elements only)
+            def interleave(make_two):
+                g1, g2 = make_two()
+                out = [[], []]
+                live = [g1, g2]
+                turn = 0
+                while any(g is not None for g in live):
+                    i = turn % 2
+                    turn += 1
+                    if live[i] is None:
+                        continue
+                    try:
+                        out[i].append(gen.freeze(next(live[i])))
+                    except StopIteration:
+                        live[i] = None
+                return out
+
+            def ref_two():
+                vals, els = flow(), fresh()
+                gs = []
+                for _ in range(2):
+                    f = iter(vals)
+                    for el in els:
+                        f = T(el, f)
+                    gs.append(iter(f))
+                return gs
+
+            def src_two():
+                vals, els = flow(), fresh()
+                src = lena.core.Source(vals, *els)
+                return [src(), src()]
+            exp3 = outcome(lambda: interleave(ref_two))
+            got3 = outcome(lambda: interleave(src_two))
+            obs.count("arrangements")
+            obs.check(got3 == exp3, "source-interleaved-flows-differ",
+                      "two live flows of one Source(list, e1..en) give %r, manual folds give %r "
+                      "(els=%r flow=%r)" % (got3, exp3, els_r, flow_r))
         # flatten keeps element identity and order
         els = fresh()
         nested = lena.core.Sequence(*random_nest(random.Random(r["nest_seed"]), els))
